@@ -100,7 +100,10 @@ def run(ctx):
         conds.append(xh.Cond(f"two tables, the first names the file literally, match2={m2} (last match wins also across literal and glob tables)", "C04.py", "_last", {"m1": m1, "m2": m2, "own_n": 2, "literal_first": True}, timeout=300, twin="_last_reach"))
     for l0 in range(13):
         conds.append(xh.Cond(f"two look-ups on one Project carry no state (root shape {SHAPES[l0]})", "C04.py", "_twice", {"levels": [l0, None, None], "carve": carve}, timeout=300, twin="_twice_reach"))
+    for l0 in range(13):
+        conds.append(xh.Cond(f"with the real reader below it (file content: nothing, copyright, licence, both, contributor only, contributor + copyright, unparseable expression, empty), root shape {SHAPES[l0]}", "C04.py", "_rr", {"levels": [l0, None, None]}, timeout=300, twin="_rr_reach"))
     ctx.functions_encoded = [
+        "reuse.extract.reuse_info_of_file (real, on in-memory content) below reuse.project.Project.reuse_info_of",
         "reuse.project.Project.reuse_info_of",
         "reuse.global_licensing.NestedReuseTOML.reuse_info_of / _find_relevant_tomls / _find_relevant_tomls_and_items",
         "reuse.global_licensing.ReuseTOML.reuse_info_of / find_annotations_item, AnnotationsItem.matches",
@@ -111,6 +114,7 @@ def run(ctx):
     ctx.bounds = {
         "file": "own information in {none, copyright, licence, both, unparseable, binary} x .license sibling in {absent, none, copyright, licence, both}",
         "REUSE.toml chain": f"{depth} nested levels (root, a/, a/b/), each absent or one matching table with precedence in {{closest, aggregate, override}} x information in {{none, copyright, licence, both}}: complete",
+        "real reader": "8 file contents (incl. contributor only, unparseable expression, empty) x 13 x 13 shapes of two nested REUSE.toml files, reader not stubbed",
         "two tables": "one REUSE.toml with two tables, each of the 12 shapes, each matching or not (last match wins)",
         "dep5": "one Files paragraph matching or not x own x sibling",
         "sequence": "two files under the same 2-level REUSE.toml chain looked up one after the other on one Project object (4 x 4 own-information kinds x 13 x 13 shapes), then the first again",
